@@ -1,15 +1,21 @@
 (* Props/C14.v -- The assembler never crashes, whatever the input.
-   PARTIAL BY NATURE: the theorems cover the modelled core from the syntax tree down --
-   operand evaluation (division, macro kinds, arity, recursion depth), the relaxation layout
-   (termination within its fuel = bounded time) and emission -- and, above the tree, the statement
-   parser: the PEG model of asm.pest (Model/Peg.v on the generated Gen/AsmGrammar.v) returns pairs or
-   a parse error for EVERY byte string (theorems C14_peg_* at the end; the model is tied to pest by
-   the differential runs peg:* of checks/pegcorr.py).  The conversion of pairs to the tree
-   (parse/mod.rs), native stack depth, and the file system are outside any executable
-   model: they are covered by exploration in checks/c14.py (see KNOWN_FINDINGS.txt, D19). *)
+   The theorems run FROM SOURCE TEXT: C14_text_never_panics says that, for every byte string, the
+   model of Ingest::ingest of one source text -- the PEG model of asm.pest (Model/Peg.v on the
+   generated Gen/AsmGrammar.v), the conversion of pest's pairs to the syntax tree (Model/ParseTree.v:
+   parse/mod.rs, macros.rs, expression.rs, args.rs, every unwrap()/unreachable!() a Panic), the
+   parser's constant check and the assembler (Model/Asm.v) -- returns bytes or an error value.
+   Below it: operand evaluation (division, macro kinds, arity, recursion depth), the relaxation
+   layout (termination within its fuel = bounded time), emission; the PEG interpreter terminates on
+   every input for every well-formed grammar (C14_peg_total and its siblings) and is sound for the natural semantics of
+   pest's dialect (C14_peg_sound), from which the shape of the pairs of each rule is derived.
+   The models are tied to the code by the differential runs of checks/pegcorr.py (pairs, tree, bytes).
+   PARTIAL BY NATURE for the rest: file directives (%import / %include / %include_hex: Model/Ingest.v,
+   C12 / C18), native stack depth and the file system are outside these theorems: they are covered
+   by exploration in checks/c14.py (see KNOWN_FINDINGS.txt, D19). *)
 From Verif Require Import Model.Base Model.Ops Model.Expr Model.Asm
   Proofs.ExprEvalProofs Proofs.AsmLayoutProofs Proofs.AsmTotalProofs
-  Model.PegAst Gen.AsmGrammar Model.Peg Proofs.PegProofs.
+  Model.PegAst Gen.AsmGrammar Model.Peg Proofs.PegProofs
+  Model.Ingest Model.ParseTree Proofs.PegSemProofs Proofs.ParseTreeProofs.
 Open Scope Z_scope.
 
 (* operand evaluation returns a value or an error value for every expression, every macro
@@ -91,6 +97,66 @@ Example C14_peg_example :
   run_peg (str_bytes "push1  1") = "err"%string.
 Proof. repeat split; vm_compute; reflexivity. Qed.
 
+(* ---- from source text: pest pairs -> syntax tree (parse/mod.rs, macros.rs, expression.rs, args.rs) ---- *)
+
+(* the interpreter is sound for the natural semantics of pest's dialect, for EVERY grammar: a
+   successful parse consumed a prefix s of the input and produced pairs ps related by `sem`
+   (rule by rule: the text a pair spans and the pairs under it are those its rule body describes) *)
+Theorem C14_peg_sound : forall g start input ps,
+  peg_parse g start input = Ok (Some ps) ->
+  exists s rest, input = s ++ rest /\ sem (compile g) (RRef start) NonAtomic 0%N s ps.
+Proof. exact peg_parse_sem. Qed.
+Print Assumptions C14_peg_sound.
+
+(* parse_asm after pest: on the pairs that AsmParser::parse can return, none of the unwrap() /
+   unreachable!() / assert! / slice indices of parse/mod.rs, macros.rs, expression.rs, args.rs fires:
+   the conversion returns the nodes or a ParseError *)
+Theorem C14_conv_never_panics : forall input ps,
+  parse_program input = Ok (Some ps) -> forall s, conv_nodes input ps <> Panic s.
+Proof. exact conv_nodes_no_panic. Qed.
+Print Assumptions C14_conv_never_panics.
+
+(* parse_asm, for every byte string: nodes or a ParseError *)
+Theorem C14_parse_text_never_panics : forall input s, parse_text input <> Panic s.
+Proof. exact parse_text_no_panic. Qed.
+Print Assumptions C14_parse_text_never_panics.
+
+(* the error values of parse_asm: exactly the five ParseError variants, with the arguments the
+   harness prints (ParseError::Lexer for every text pest refuses; the counts of MissingArgument /
+   ExtraArgument are always expected = 1, got = 0) *)
+Theorem C14_parse_errors : forall input e, parse_nodes input = Err e ->
+  In e [mkErr "Parse.Lexer" []; mkErr "Parse.ImmediateTooLarge" []; mkErr "Parse.MissingArgument" ["1"; "0"];
+        mkErr "Parse.ExtraArgument" ["1"]; mkErr "Parse.ArgumentType" []].
+Proof. exact parse_nodes_errors. Qed.
+Print Assumptions C14_parse_errors.
+
+(* THE PROPERTY, from source text: Ingest::ingest of one source text (no file directives), for
+   every byte string: bytes or an error value, never a panic *)
+Theorem C14_text_never_panics : forall input s, ingest_text input <> Panic s.
+Proof. exact ingest_text_no_panic. Qed.
+Print Assumptions C14_text_never_panics.
+
+(* whatever tree the parser builds from a text, assembling it returns bytes or an error value *)
+Theorem C14_parsed_text_never_panics : forall input ops,
+  parse_text input = Ok ops -> forall s, ingest_ast ops <> Panic s.
+Proof. exact parsed_text_never_panics. Qed.
+Print Assumptions C14_parsed_text_never_panics.
+
+(* non-vacuity: the conversion does panic on pairs the grammar cannot produce (a `push` pair without
+   operand, an operator in operand position), and the model runs from text *)
+Example C14_text_example :
+  conv_nodes (str_bytes "push1") [Pair "push" 0 5 [Pair "word_size" 4 5 []]] = Panic "parse_push: operand unwrap()" /\
+  conv_nodes (str_bytes "+") [Pair "push_macro" 0 1 []] = Panic "parse_abstract_op: unreachable!()" /\
+  run_asm_text (str_bytes "%macro m(x)
+push1 $x+selector(""f()"")/0x1000000 # c
+%end
+a:
+%m(1+1) ; %push(a)") = "ok:60286000"%string /\
+  run_asm_text (str_bytes "%push(1,2)") = "err:Parse.ExtraArgument(1) out=-"%string /\
+  run_asm_text (str_bytes "push1 256") = "err:Parse.ImmediateTooLarge() out=-"%string /\
+  run_parse_debug (str_bytes "%import(1)") = "err:ArgumentType"%string.
+Proof. repeat split; vm_compute; reflexivity. Qed.
+
 Check C14_eval_never_panics : forall labels macros fuel vars e s,
   eval labels macros fuel vars e <> Panic s.
 Check C14_layout_terminates : forall macros items, exists w pos, layout macros items = Ok (w, pos).
@@ -106,3 +172,15 @@ Check C14_peg_fuel_suffices : forall g start input,
   exists r, peg_parse_fuel (enough_fuel g input) g start input = r /\
             r <> Panic "out of fuel" /\ r <> Panic "empty repetition".
 Check C14_parser_never_panics : forall input, exists o, parse_program input = Ok o.
+Check C14_parsed_text_never_panics : forall input ops,
+  parse_text input = Ok ops -> forall s, ingest_ast ops <> Panic s.
+Check C14_peg_sound : forall g start input ps,
+  peg_parse g start input = Ok (Some ps) ->
+  exists s rest, input = s ++ rest /\ sem (compile g) (RRef start) NonAtomic 0%N s ps.
+Check C14_conv_never_panics : forall input ps,
+  parse_program input = Ok (Some ps) -> forall s, conv_nodes input ps <> Panic s.
+Check C14_parse_text_never_panics : forall input s, parse_text input <> Panic s.
+Check C14_text_never_panics : forall input s, ingest_text input <> Panic s.
+Check C14_parse_errors : forall input e, parse_nodes input = Err e ->
+  In e [mkErr "Parse.Lexer" []; mkErr "Parse.ImmediateTooLarge" []; mkErr "Parse.MissingArgument" ["1"; "0"];
+        mkErr "Parse.ExtraArgument" ["1"]; mkErr "Parse.ArgumentType" []].
